@@ -208,6 +208,9 @@ class StorageRunner:
             recs.append((oid, r))
         return verdict, recs
 
+    def undo_candidates(self):
+        return [x for x in reversed(self.model.txns)]
+
     def resolve(self, oid, t_data, cur, pre):
         return None     # raw programs use classes without a resolver
 
@@ -341,6 +344,8 @@ class StorageRunner:
                 self.labels.add('abort-raised')
 
     packed = False
+    can_undo = False
+    skip_uncreated = False
 
     def lenient_errors(self):
         if not self.packed:
@@ -387,7 +392,7 @@ class StorageRunner:
                 new_oids.append(oid)
             elif kind == 'upd':
                 oid = self.pick_oid(r[1])
-                if oid in pending:
+                if oid in pending or (self.skip_uncreated and self.model.current(oid)[1] is None):
                     continue
                 data = records.make_record(self.new_uid(), pad=r[2])
                 s.store(oid, self.cur_serial(oid), data, '', t)
@@ -396,9 +401,9 @@ class StorageRunner:
             elif kind == 'stale':
                 oid = self.pick_oid(r[1])
                 revs = self.model.revisions(oid)
-                if len(revs) < 2 or oid in pending:
-                    continue
-                stale = revs[max(0, len(revs) - 1 - r[2])][0]
+                if len(revs) < 2 or oid in pending or revs[-1][1] is None:
+                    continue        # (writing to an un-created object is outside the callers' domain)
+                stale = revs[max(0, len(revs) - 1 - max(1, r[2]))][0]
                 data = records.make_record(self.new_uid())
                 try:
                     s.store(oid, stale, data, '', t)
@@ -422,9 +427,9 @@ class StorageRunner:
                 pending[oid] = None
                 self.labels.add('delete')
             elif kind == 'undo':
-                if 'undoLog' not in self.battery.caps:
+                if 'undoLog' not in self.battery.caps and not self.can_undo:
                     continue
-                cands = [x for x in reversed(self.model.txns)]
+                cands = self.undo_candidates()
                 if not cands:
                     continue
                 target = cands[r[1] % len(cands)]
@@ -498,7 +503,13 @@ class StorageRunner:
             return
         last = self.model.last_tid()
         # an explicit tid later than everything committed, as copy() guarantees
-        tid = p64(max(u64(last), u64(s.lastTransaction())) + dt * 1000)
+        lastn = max(u64(last), u64(s.lastTransaction()))
+        if lastn == 0:
+            import time as _t
+            from persistent.TimeStamp import TimeStamp
+            now = self.clock.now
+            lastn = u64(TimeStamp(*(_t.gmtime(now)[:5] + (now % 60,))).raw())
+        tid = p64(lastn + dt * 1000)
         s.tpc_begin(t, tid, status)
         written = []
         new_oids = []
